@@ -140,7 +140,7 @@ class ODb:
         if not fps:
             return "empty"
         bits = self.bits if self.rows else fps[0]["fp"]["bits"]
-        keys = self.keys if self.rows else [k for k, _ in fps[0].get("props", [])]
+        keys = self.keys if (self.rows or self.keys) else [k for k, _ in fps[0].get("props", [])]
         for f in fps:
             if f["fp"]["level"] != self.level:
                 return "level"
@@ -154,7 +154,8 @@ class ODb:
     def add(self, fps):
         if not self.rows:
             self.bits = fps[0]["fp"]["bits"]
-            self.keys = [k for k, _ in fps[0].get("props", [])]
+            if not self.keys:
+                self.keys = [k for k, _ in fps[0].get("props", [])]
         for f in fps:
             d = dict(f.get("props", []))
             self.rows.append({"fp": cast_fp(f["fp"], self.kind, self.level), "name": f.get("name"),
@@ -303,8 +304,12 @@ class HistGen:
                     choices += ["pickle", "savez"]
                 if self.faults:
                     choices += ["add_fault", "add_fault", "add_fault", "set_prop_fault", "update_props_fault", "concat_fault", "subset_absent"]
-            elif self.faults:
-                choices += ["add_fault"]
+            else:
+                # property updates on a database that has no rows yet (columns of length 0): the columns declared here
+                # must stay aligned with the rows added afterwards
+                choices += ["set_prop", "update_props"]
+                if self.faults:
+                    choices += ["add_fault"]
             if self.allowed:
                 choices = [c for c in choices if c in self.allowed] or ["add"]
             c = rng.choice(choices)
@@ -312,11 +317,18 @@ class HistGen:
                 src_kinds = [k for k in KINDS if k == db.kind or db.kind == "bit" or k == "bit"]
                 b = db.bits if db.rows else bits
                 ks = db.keys if db.rows else keys
+                if not db.rows and db.keys and rng.random() < 0.5:
+                    ks = db.keys     # columns declared on the still empty database: provide them
                 fps = [gen_fpin(rng, rng.choice(src_kinds) if rng.random() < 0.3 else db.kind, b, db.level, ks, self.none_names)
                        for _ in range(rng.randint(1, 4))]
                 if rng.random() < 0.2 and db.rows:     # extra props on a fingerprint are ignored by the database
                     fps[0]["props"] = fps[0]["props"] + [["extra", {"i": 1}]]
-                emit({"op": "add", "id": i, "fps": fps})
+                op = {"op": "add", "id": i, "fps": fps}
+                fk = db.fault_in(fps)
+                if fk is not None:       # e.g. a column declared on the empty database that the batch does not provide
+                    op["fault"] = fk
+                    op["pos"] = 0
+                emit(op)
             elif c == "add_fault":
                 b = db.bits if db.rows else bits
                 ks = db.keys if db.rows else keys
@@ -410,6 +422,17 @@ class HistGen:
 # executing a history on the implementation
 # --------------------------------------------------------------------------------------
 
+EMPTY_DTYPE = {"i": np.int64, "f": np.float64, "b": np.bool_, "s": "<U1"}
+
+
+def col_array(key, vals):
+    """A property column as the NumPy array a caller would pass; an empty column is typed like the key's values
+    (NumPy would otherwise make it float64 and coerce whatever is appended later)."""
+    if not vals and key in PROPTYPES:
+        return np.array([], dtype=EMPTY_DTYPE[PROPTYPES[key]])
+    return np.array([unpval(v) for v in vals])
+
+
 class ImplRun:
     def __init__(self, tmpdir):
         self.live = {}
@@ -445,9 +468,9 @@ class ImplRun:
         if o == "concat":
             return self._put(op, attempt(lambda: concat([L[j] for j in op["ids"]])))
         if o == "set_prop":
-            return attempt(lambda: L[op["id"]].set_prop(op["key"], np.array([unpval(v) for v in op["vals"]])))
+            return attempt(lambda: L[op["id"]].set_prop(op["key"], col_array(op["key"], op["vals"])))
         if o == "update_props":
-            return attempt(lambda: L[op["id"]].update_props({k: np.array([unpval(v) for v in vals]) for k, vals in op["props"]}))
+            return attempt(lambda: L[op["id"]].update_props({k: col_array(k, vals) for k, vals in op["props"]}))
         if o == "pickle":
             return self._put(op, attempt(lambda: pickle.loads(pickle.dumps(L[op["id"]]))))
         if o == "savez":
